@@ -71,3 +71,25 @@ class MarkerNode(NodeProtocol):
     def emit(self, current_addr):
         self.seen = current_addr.logical_value
         return b"\xea"
+
+
+class AbstractScope:
+    """Any chain of enclosing scopes, summarised by its answer for the probed name (used as `parent` in the inductive step of
+    Scope.value_for: a scope answers from its own tables, else exactly what its parent answers)."""
+
+    def __init__(self, defined, value):
+        self.defined = defined
+        self.value = value
+        self.symbols = {}
+        self.code_symbols = {}
+        self.table = None
+        self.parent = None
+
+    def value_for(self, symbol):
+        from a816.exceptions import SymbolNotDefined
+        if not self.defined:
+            raise SymbolNotDefined(symbol)
+        return self.value
+
+    def get_table(self):
+        return self.table
